@@ -778,9 +778,80 @@ fn follow_layer(col: &Collector) {
     col.layer("L-follow mode ends", cases.len() as u64, true, json!({"statements": stmts, "limits": ["none", 0, 1, 2]}));
 }
 
+/// J2: OUTER / INNER JOIN between tables of different widths (1 against 6 columns, both ways), rows with and without
+/// partner, `*` and named projections; N: PERCENTILE / MIN / MAX / array_unique / DISTINCT over 64..200 REAL values with
+/// NaNs in different positions (sorting must not panic)
+fn widths_and_many_values_layer(col: &Collector) {
+    let defs = "CREATE TABLE n1('k=([a-z]+)' => k TEXT);\nCREATE TABLE n6('k=([a-z]+)' => k TEXT, 'a=([0-9]+)' => a INT, 'b=([0-9]+)' => b INT, 'c=([a-z]+)' => c TEXT, 'd=([0-9.]+)' => d REAL, 'e=(e)' => e BOOLEAN);\nCREATE TABLE r('k=([a-z]+)' => k TEXT, 'r=(\\\\S+)' => r REAL);";
+    let tables = sut::make_tables(defs).expect("J2 defs");
+    let wide = "k=a a=1 b=2 c=x d=1.5 e=e\nk=b a=3\nk=zz a=4 c=y\n";
+    let narrow = "k=a\nk=q\nk=b\n";
+    let tmp = sut::TempFiles::new(&[wide.as_bytes(), narrow.as_bytes()]);
+    let mut n = 0u64;
+    for (main_table, main_data, joined_table, jp) in [("n6", wide, "n1", &tmp.paths[1]), ("n1", narrow, "n6", &tmp.paths[0])] {
+        for kind in ["INNER", "OUTER"] {
+            for proj in ["*", &format!("{}.k", main_table), &format!("{}.k, {}.k", joined_table, main_table), "COUNT(*)"] {
+                let text = format!("SELECT {} FROM {} {} JOIN {}::'{}' ON {}.k = {}.k", proj, main_table, kind, joined_table, jp, main_table, joined_table);
+                let st = sut::parse(&text).expect("J2 statement");
+                for sel in 0..4usize {
+                    let mf: String = main_data.lines().enumerate().filter(|(i, _)| sel == 0 || *i != sel - 1).map(|(_, l)| format!("{}\n", l)).collect();
+                    let r = sut::run_files(&tables, &st, &[mf.as_bytes()], FileRunOpts::default());
+                    n += 1;
+                    col.eval(1);
+                    col.nontrivial(h64(&("J2", &text, sel)));
+                    match &r {
+                        Outcome::Panic(p) => col.fail(fail(panic_signature(p), format!("`{}` over {:?} panicked: {}", text.replace(jp.as_str(), "<joined>"), mf, p.msg), json!({"layer": "J2", "statement": text.replace(jp.as_str(), "<joined>"), "main": mf}), json!("output or error"), json!({"panic": p.msg, "at": format!("{}:{}", p.file, p.line)}), mf.len() as u64)),
+                        Outcome::Ok(fr) => {
+                            // a non-aggregate OUTER JOIN keeps every line, an INNER JOIN the lines with a partner
+                            if let (Ok(_), true) = (&fr.result, proj != "COUNT(*)") {
+                                let have = fr.printed.len();
+                                let partner = |l: &str| { let k = l.split(' ').next().unwrap_or(""); k == "k=a" || k == "k=b" };
+                                let want = mf.lines().filter(|l| kind == "OUTER" || partner(l)).count();
+                                if have != want {
+                                    col.fail(fail(format!("J2:rows:{}", kind), format!("`{}` over {:?} printed {} rows, expected {}", text.replace(jp.as_str(), "<joined>"), mf, have, want), json!({"layer": "J2", "statement": text.replace(jp.as_str(), "<joined>"), "main": mf}), json!(want), json!(fr.printed), mf.len() as u64));
+                                }
+                            }
+                        }
+                        _ => {}
+                    }
+                }
+            }
+        }
+    }
+    for total in [21usize, 33, 64, 100, 200] {
+        for pattern in 0..6usize {
+            let lines: Vec<String> = (0..total)
+                .map(|i| {
+                    let nan = match pattern {
+                        0 => i % 2 == 0,
+                        1 => i % 3 == 1,
+                        2 => i < total / 2,
+                        3 => i >= total / 2,
+                        4 => i % 7 == 0 || i % 5 == 0,
+                        _ => (i * 7919) % 11 < 4,
+                    };
+                    if nan { format!("k=a r={}", if i % 4 == 0 { "-NaN" } else { "NaN" }) } else { format!("k=a r={}.5", (i * 37) % 101) }
+                })
+                .collect();
+            for text in ["SELECT PERCENTILE(r, 0.5), MIN(r), MAX(r) FROM r", "SELECT array_unique(ARRAY_AGG(r)) FROM r", "SELECT DISTINCT r FROM r", "SELECT r, COUNT(*) FROM r GROUP BY r", "SELECT k, PERCENTILE(r, 0.9), COUNT(DISTINCT r) FROM r GROUP BY k"] {
+                let (fs, evals, _) = no_panic(&tables, text, &lines, "N");
+                n += 1;
+                col.eval(evals.max(1));
+                col.nontrivial(h64(&("N", text, total, pattern)));
+                for mut f in fs {
+                    f.case = json!({"layer": "N", "statement": text, "total": total, "pattern": pattern});
+                    col.fail(f);
+                }
+            }
+        }
+    }
+    col.layer("J2-joins between tables of different widths; N-many REAL values with NaNs", n, true, json!({"value_counts": [21, 33, 64, 100, 200], "nan_patterns": 6}));
+}
+
 pub fn run(ctx: &Ctx) -> i32 {
     let col = Collector::new();
     let tables = sut::make_tables(DEF).expect("C09 definition");
+    widths_and_many_values_layer(&col);
     fault_input_layer(&col);
     follow_layer(&col);
     join_layer(ctx, &col);
@@ -810,6 +881,10 @@ pub fn run(ctx: &Ctx) -> i32 {
 pub fn replay(case: &J) -> Vec<Failure> {
     let tables = sut::make_tables(DEF).unwrap();
     match case["layer"].as_str() {
+        Some("N") | Some("J2") => {
+            println!("note: cases of this layer are replayed by re-running `./check C09 quick`");
+            vec![]
+        }
         Some("L") => {
             let col = Collector::new();
             follow_layer(&col);
